@@ -211,6 +211,7 @@ func render(r rendering, leaves []leaf) (res string, trace []int) {
 type class struct {
 	k, u  int
 	core  bool // only the core operators
+	nsRep bool // of the numeric-string typings only the representatives (see genMode)
 	few   bool // only print / if / set
 	mid   bool // five parenthesis/spacing combinations instead of eight
 	rots  int  // how many leaf rotations to run (best first)
@@ -225,8 +226,8 @@ func classes(thorough bool) []class {
 			{k: 0, u: 2, rots: 12, cross: true}, {k: 1, u: 1, rots: 12, cross: true}, {k: 2, u: 0, rots: 12, cross: true},
 			{k: 1, u: 2, rots: 2, cross: true}, {k: 2, u: 1, rots: 2, cross: true},
 			{k: 3, u: 0, rots: 2, cross: true},
-			{k: 2, u: 2, rots: 1, few: true}, {k: 3, u: 1, rots: 1, few: true},
-			{k: 4, u: 0, rots: 1, few: true},
+			{k: 2, u: 2, rots: 1, few: true, nsRep: true}, {k: 3, u: 1, rots: 1, few: true, nsRep: true},
+			{k: 4, u: 0, rots: 1, few: true, nsRep: true},
 		}
 	}
 	return []class{
@@ -237,6 +238,8 @@ func classes(thorough bool) []class {
 		{k: 3, u: 0, rots: 1, mid: true},
 	}
 }
+
+func (c class) mode() genMode { return genMode{core: c.core, nsRep: c.nsRep} }
 
 func (c class) String() string {
 	s := fmt.Sprintf("k%du%d", c.k, c.u)
@@ -520,7 +523,7 @@ func run(t *vlib.T) {
 	for _, c := range classes(t.Thorough()) {
 		c := c
 		for _, typ := range rootTypes {
-			genInto(c.k, c.u, typ, c.core, func(sk *node) {
+			genInto(c.k, c.u, typ, c.mode(), func(sk *node) {
 				if t.Stopped() {
 					return
 				}
@@ -540,7 +543,7 @@ func stats() {
 		for _, c := range classes(th) {
 			n := 0
 			for _, typ := range rootTypes {
-				genInto(c.k, c.u, typ, c.core, func(sk *node) { n++ })
+				genInto(c.k, c.u, typ, c.mode(), func(sk *node) { n++ })
 			}
 			fmt.Printf("  %-10s skeletons=%d rots=%d few=%v\n", c, n, c.rots, c.few)
 		}
